@@ -118,6 +118,10 @@ DonateOps ==
     {[op |-> "bank_send", caller |-> "attacker", dest |-> PAIR, coins |-> <<<<i.id, a>>>>] : i \in {x \in PairInfos : x.native}, a \in {1, 2}}
     \cup {[op |-> "cw20_transfer", token |-> i.id, caller |-> "attacker", dest |-> PAIR, amount |-> a] : i \in {x \in PairInfos : ~x.native}, a \in {1, 2}}
 
+\* LP tokens are ordinary cw20 tokens: holders can move them (the new holder can then withdraw)
+LpTransferOps ==
+    {[op |-> "cw20_transfer", token |-> LP, caller |-> c, dest |-> "attacker", amount |-> a] : c \in {"lp1", "lp2"}, a \in {1, 2}}
+
 RogueOps ==
     IF FULL THEN
     {[op |-> "pair_receive", pair |-> PAIR, caller |-> "attacker", sender |-> "attacker", amount |-> 2, hook |-> h, funds |-> <<>>] :
@@ -125,7 +129,7 @@ RogueOps ==
     \cup {[op |-> "pair_update_decimals", pair |-> PAIR, caller |-> "attacker", denom |-> "ua", decimals |-> <<3, 3>>]}
     ELSE {}
 
-Ops == ProvideOps \cup WithdrawOps \cup SwapDirectOps \cup SwapHookOps \cup DonateOps \cup RogueOps
+Ops == ProvideOps \cup WithdrawOps \cup SwapDirectOps \cup SwapHookOps \cup DonateOps \cup LpTransferOps \cup RogueOps
 
 Init == w = InitWorld /\ last = NoEv /\ steps = 0 /\ hist = <<>>
 
